@@ -1,3 +1,5 @@
+import Martian.Props.C20.Arith
+import Martian.Props.C20.Facts
 import Martian.Lemmas.Range
 import Martian.Lemmas.Path
 import Martian.Lemmas.PathBytes
